@@ -25,7 +25,8 @@ LEVEL_TEXT = (
     "helper functions inlined, recursive creation calls recorded with snapshots of their dict arguments): an "
     "annotated field gets exactly the value its refinement's generate returns, generate receives the sibling "
     "values; the children of a production are created with a fresh dict holding exactly the earlier fields of "
-    "that node under their names with the values placed in the node; mutate regenerates the selected field and "
+    "that node under their names with the values placed in the node, and values pinned for a node "
+    "(initial_values) are not handed on to the creation of its fields; mutate regenerates the selected field and "
     "every later field whose refinement depends on a regenerated sibling (9 scenarios x dependency shapes), "
     "passing the rebuilt siblings; the stack mapper is interpreted (sa/rules/stackmodel.py): a refined field must"
     " take a value its refinement validated (known finding: the plain stack shadows the refined branch); (R6) "
